@@ -371,6 +371,16 @@ def runF (table : List Load) : Nat → Load → Sh α → Sh α × Bool
   | 0, _, sh => (sh, false)
   | n + 1, L, sh => runMain (tableEnv (runF table n) table) L sh
 
+/-- a history of load attempts on the same classes (same metamodel or metamodels sharing user
+classes), one after the other: each entry = the loads user code may start, the nesting depth, the
+attempt.  Attempts may fail or succeed; the state each leaves is the state the next starts in. -/
+def runHist (hist : List (List Load × Nat × Load)) (sh : Sh α) : Sh α :=
+  hist.foldl (fun s x => (runF x.1 x.2.1 x.2.2 s).1) sh
+
+/-- a later attempt on the classes as an earlier history left them: its own event lists -/
+def runNext (table : List Load) (n : Nat) (L : Load) (sh : Sh α) : Sh α × Bool :=
+  runF table n L { sh with log := [], own := [] }
+
 end
 
 /-! ## what the calls of user code of one attempt should be (specification)
@@ -424,6 +434,21 @@ def Load.sumsL : List Load → List NodeSum
   | [] => []
   | L :: Ls => L.sums ++ Load.sumsL Ls
 end
+
+mutual
+/-- per file of a load (registration order, as `Load.sums`): does the reference resolution of the file
+fail — a scope-provider call raises (unknown name, exception of the provider) or a reference stays
+postponed for good -/
+def Load.unres : Load → List Bool
+  | .mk _ _ _ _ _ imps resolve unresolved _ _ => (unresolved || resolve.any (·.raises)) :: Load.unresL imps
+def Load.unresL : List Load → List Bool
+  | [] => []
+  | L :: Ls => L.unres ++ Load.unresL Ls
+end
+
+/-- the model is a value of an immutable type -/
+def Load.immut : Load → Bool
+  | .mk _ _ _ root _ _ _ _ _ _ => root.isConv
 
 mutual
 /-- calls while an imported file (and what it imports) is parsed -/
@@ -500,6 +525,13 @@ anything but what the constructor is owed (grammar attributes, `parent` of a con
 def Op.harmless (txAttrs : List String) (contained : Bool) : Op → Prop
   | .set _ => True
   | .del k => k ∉ txAttrs ∧ (k = "parent" → contained = false)
+
+/-- is the name `k` on the object after the operations of user code (`present`: was it there before):
+the last store / deletion of `k` decides -/
+def Op.alive (k : String) (present : Bool) (ops : List Op) : Bool :=
+  ops.foldl (fun b o => match o with
+    | .set x => b || x == k
+    | .del x => b && x != k) present
 
 end Kw
 
